@@ -291,7 +291,13 @@ func TestWorker(t *testing.T) {
 			}
 		}
 
-		if len(vs) > 0 && !(prop == "C08" && len(vs) == 1 && vs[0].Code == "race") {
+		onlyRace := len(vs) > 0
+		for _, v := range vs {
+			if v.Code != "race" {
+				onlyRace = false
+			}
+		}
+		if len(vs) > 0 && !onlyRace {
 			// a violation is a property of (scenario, schedule): it must show again when the very same run is
 			// repeated; what does not is counted and not reported (the race detector reports once per process)
 			sc2 := gen.Generate(prop, seed)
@@ -301,7 +307,7 @@ func TestWorker(t *testing.T) {
 			for _, v := range vs {
 				again := v.Code == "race"
 				for _, w := range vs2 {
-					if w.Sig == v.Sig {
+					if w.Code == v.Code {
 						again = true
 					}
 				}
